@@ -24,6 +24,7 @@ RULE = (
     "case = (plan with clear_checkpoint, pause|suspend injection). Sweep over the 'nonresumable' corpus plan at every "
     "callback boundary + Hypothesis profile 'nonresumable'. Non-trivial: at least one cleanup clause had been entered "
     "and at least one run was open when the request arrived in the non-resumable section. Distinct = canonical JSON."
+    ' Generated requests are aimed at the m-th message after the clear_checkpoint (at_cmd); corpus plans nonresumable_toggles and in-plan pause variants are swept completely.'
 )
 ASSUMPTIONS = ["requests arrive at boundaries between event-loop callbacks"]
 
